@@ -88,6 +88,7 @@ func (publisherSelf *PublisherDef[T]) Publish(result T) {
 
 	for _, s := range subscribers {
 		verifAt("publisher.Publish.beforeDeliver")
+		s := s // the closure below may run later(on subOn): it must not share the loop variable
 		if s.OnNext != nil {
 
 			doSub := func() {
